@@ -975,6 +975,23 @@ func runRootRegistered(c *fw.Ctx) {
 	if err != nil || !aschema.FromAvro(got).Equal(want) {
 		c.Violation("wrong-schema|registered-struct|root", fmt.Sprintf("SchemaForType(RootReg{}) = %s err=%v, registered %s", aschema.FromAvro(got).Print(nil), err, doc), doc)
 	}
+	// the caller edits what it got back — below the first field level too — and generates again
+	if got.Object != nil {
+		for i := range got.Object.Fields {
+			f := &got.Object.Fields[i]
+			f.Name += "_edited"
+			f.Type.Type = "edited-" + f.Type.Type
+			if f.Type.Object != nil {
+				f.Type.Object.LogicalType = "edited"
+			}
+			for j := range f.Type.Union {
+				f.Type.Union[j].Type = "edited"
+			}
+		}
+	}
+	if again, err := avro.SchemaForType(RootReg{}); err != nil || !aschema.FromAvro(again).Equal(want) {
+		c.Violation("superseded-registration-still-in-force|registered-struct|after-caller-edit", fmt.Sprintf("after the caller edited the schema it was given, SchemaForType(RootReg{}) = %s err=%v, registered %s", aschema.FromAvro(again).Print(nil), err, doc), doc)
+	}
 	got, err = avro.SchemaForType(struct {
 		R RootReg `json:"r"`
 	}{})
